@@ -137,7 +137,13 @@ func (r *Run) loadKnown() {
 		if len(fs) < 2 || fs[0] != "property="+r.ID || !strings.HasPrefix(fs[1], "sig=") {
 			continue
 		}
-		r.knownLines[strings.TrimPrefix(fs[1], "sig=")] = strings.Join(fs[2:], " ")
+		sig := strings.TrimPrefix(fs[1], "sig=")
+		if os.Getenv("VERIF_IGNORE_KNOWN") == sig {
+			// maintenance: lets the search shrink a minimal case of a listed
+			// finding (kept under regress/); never set by registered commands
+			continue
+		}
+		r.knownLines[sig] = strings.Join(fs[2:], " ")
 	}
 }
 
